@@ -4,6 +4,7 @@
 // and every iterator yields exactly the declared number of points.
 //@target src/e57_reader.rs
 //@check reads_are_history_independent serves=C17,C09,C03,C05 fn=E57Reader::{pointcloud_raw,pointcloud_simple,blob,xml} note="BOUNDED: one file with two point clouds (5000 points with sub-byte, 11-bit and 61-bit integer records plus doubles; 33 points) and a 3000-byte blob; 6 interleavings of partly consumed raw / simple iterators, blob reads and full reads; compared with a fresh reader per operation"
+//@check corrupted_pages_never_yield_other_data serves=C07,C08,C17 fn=PagedReader::{read_page,read},E57Reader::{new,validate_crc,pointcloud_raw} note="BOUNDED: the same file with one bit flipped at 5 positions (payload start/middle/end, first and last checksum byte) of EVERY page; E57Reader::new, raw reads of both clouds and validate_crc: validate_crc must fail, every other operation fails or returns exactly the result of the intact file; a failed read followed by a read of another cloud still returns the intact result; no panic"
 //@module
     use crate::{E57Writer, Point, RawValues, Record, RecordDataType, RecordName, RecordValue};
     use std::io::Cursor;
@@ -123,5 +124,52 @@
             assert!(same_points(&simple_all(&mut r, 0), &want_simple0), "simple cloud 0 after plan {plan}");
             assert!(same_points(&simple_all(&mut r, 1), &want_simple1), "simple cloud 1 after plan {plan}");
             assert!(raw_all(&mut r, 0) == want_raw0, "raw cloud 0 again after plan {plan}");
+        }
+    }
+
+    #[test]
+    fn corrupted_pages_never_yield_other_data() {
+        let bytes = build();
+        let want_raw0 = raw_all(&mut fresh(&bytes), 0);
+        let want_raw1 = raw_all(&mut fresh(&bytes), 1);
+        let pages = bytes.len() / 1024;
+        assert_eq!(bytes.len() % 1024, 0);
+        for page in 0..pages {
+            for pos in [0usize, 511, 1019, 1020, 1023] {
+                let what = format!("bit flipped in page {page} at byte {pos}");
+                let mut bad = bytes.clone();
+                bad[page * 1024 + pos] ^= 0x10;
+                assert!(E57Reader::validate_crc(Cursor::new(bad.clone())).is_err(), "validate_crc must fail: {what}");
+                let mut r = match E57Reader::new(Cursor::new(bad.clone())) {
+                    Ok(r) => r,
+                    Err(_) => continue,
+                };
+                let pcs = r.pointclouds();
+                if pcs.len() != 2 {
+                    // the XML lies in the damaged page and was refused, or page 0 (header, not checksummed on open) is damaged
+                    continue;
+                }
+                for k in [0usize, 1, 0] {
+                    let want = if k == 0 { &want_raw0 } else { &want_raw1 };
+                    if let Ok(it) = r.pointcloud_raw(&pcs[k]) {
+                        let mut got = Vec::new();
+                        let mut failed = false;
+                        for p in it {
+                            match p {
+                                Ok(v) => got.push(v),
+                                Err(_) => {
+                                    failed = true;
+                                    break;
+                                }
+                            }
+                        }
+                        if failed {
+                            assert!(got[..] == want[..got.len()], "points handed out before the error differ from the intact file: {what} cloud {k}");
+                        } else {
+                            assert!(&got == want, "a damaged file yielded other data without an error: {what} cloud {k}");
+                        }
+                    }
+                }
+            }
         }
     }
